@@ -53,6 +53,14 @@ func scenarios(quick bool) []scenario {
 			cz.Config{GridN: 5, AutoCommit: true, Persist: always(), Channels: two, GC: 0.0000001, FileCap: 1}, base,
 			[][]string{{"open 1 all 0 0", "write 1 2", "close 1"}, {"del d1 0 1"}, {"gc"}}},
 	}
+	// a variable-length channel whose domain grows while a reader rebuilds its offset table:
+	// the reader of the old samples may be preempted inside its scan; the other thread commits
+	// two more samples to the same domain, runs GC (which drops the offset cache) and then
+	// reads exactly the new tail - which it must see, having committed it itself
+	ss = append(ss, scenario{"S6 read of a growing variable-length domain || commit more; GC; read the new tail",
+		cz.Config{GridN: 6, AutoCommit: true, Persist: always(), Channels: []cesium.ChannelKey{cz.T, cz.Str}, GC: 0.0000001, PointReads: true},
+		[]string{"open 0 all 0 0", "write 0 3", "gc"},
+		[][]string{{"rd 3 1 2"}, {"write 0 2", "gc", "rd 3 3 5", "close 0"}}})
 	if !quick {
 		ss = append(ss,
 			scenario{"S4 create channel || delete channel || write existing",
@@ -66,10 +74,29 @@ func scenarios(quick bool) []scenario {
 	return ss
 }
 
+// observations of "rd K i j" ops (a read of channel K over [Grid[i], Grid[j])), keyed by
+// world; part of the outcome, so only scenarios whose reads are order independent use it
+var (
+	obsMu sync.Mutex
+	obs   = map[*cz.World][]string{}
+)
+
 func apply(w *cz.World, op string) error {
 	var o string
 	var err error
 	switch {
+	case strings.HasPrefix(op, "rd "):
+		var k, i, j int
+		fmt.Sscanf(op, "rd %d %d %d", &k, &i, &j)
+		fr, err := w.DB.Read(cz.Ctx, telem.TimeRange{Start: w.Grid[i], End: w.Grid[j]}, cesium.ChannelKey(k))
+		var got []string
+		for _, s := range fr.Get(cesium.ChannelKey(k)).Series {
+			got = append(got, cz.Decode(cesium.ChannelKey(k), s)...)
+		}
+		obsMu.Lock()
+		obs[w] = append(obs[w], fmt.Sprintf("%s=%v", op, got))
+		obsMu.Unlock()
+		return err
 	case op == "read":
 		_, err = w.DB.Read(cz.Ctx, telem.TimeRangeMax, w.Keys()...)
 		return err
@@ -106,7 +133,11 @@ func content(w *cz.World) string {
 // plain sequential runner (reference).
 func body(sc scenario) schedx.Body {
 	return func(t *testing.T, run func(threads ...func()) bool) string {
-		w, err := cz.New(sc.cfg)
+		cfg := sc.cfg
+		if cfg.PointReads {
+			cfg.FS = ptFS{xfs.NewMem()}
+		}
+		w, err := cz.New(cfg)
 		if err != nil {
 			return "setup error: " + err.Error()
 		}
@@ -134,7 +165,12 @@ func body(sc scenario) schedx.Body {
 			})
 		}
 		dl := run(fs...)
-		out := fmt.Sprintf("errs=%q ", errs)
+		obsMu.Lock()
+		seen := append([]string{}, obs[w]...)
+		delete(obs, w)
+		obsMu.Unlock()
+		sort.Strings(seen)
+		out := fmt.Sprintf("errs=%q reads=%v ", errs, seen)
 		if dl {
 			return out + "DEADLOCK"
 		}
@@ -169,6 +205,8 @@ func dscenarios(quick bool) []dscenario {
 			[]string{"w 10 14", "w 20 28", "d 10 12", "reopen"}, [][]string{{"gc"}, {"d 22 24"}}},
 		{"D4 garbage collect || back-fill write || read of the moved domain", 1000, 0.0000001,
 			[]string{"w 30 34", "w 40 48", "d 30 33", "reopen"}, [][]string{{"gc"}, {"w 10 12"}, {"r"}}},
+		{"D5 write into the gap between two domains || delete spanning both domains", 0, 0,
+			[]string{"w 10 20", "w 30 40"}, [][]string{{"w 22 28"}, {"d 15 35"}}},
 		{"D3 commit(persist) of a new first domain || commit(persist) of a new last domain || delete in the middle", 0, 0,
 			[]string{"w 30 40", "w 50 60"}, [][]string{{"w 10 20"}, {"w 70 80"}, {"d 32 38"}}},
 	}
@@ -399,7 +437,15 @@ func TestCheck(t *testing.T) {
 		items = append(items, item{sc.name, body(sc), sc.threads})
 	}
 	for i, sc := range items {
+		if o := os.Getenv("C09_ONLY"); o != "" && !strings.HasPrefix(sc.name, o) {
+			continue
+		}
 		ref := sc.body(t, sequential)
+		if os.Getenv("C09_DEBUG") != "" {
+			fmt.Fprintf(os.Stderr, "REF %s: %s\n", sc.name, ref)
+			s0, _, _ := schedx.RunOnce(t, schedx.Config{Body: sc.body}, nil)
+			fmt.Fprintf(os.Stderr, "TRACE %v\n", s0.Trace)
+		}
 		if strings.Contains(ref, "error") || strings.Contains(ref, "panic") {
 			r.HarnessError("scenario %s: sequential reference run is not clean: %s", sc.name, ref)
 			continue
